@@ -16,7 +16,8 @@ from typing import Any, Optional
 from collections.abc import Callable, Iterable, Iterator
 from elementpath.protocols import ElementProtocol
 from elementpath.exceptions import xpath_error
-from elementpath.datatypes import UntypedAtomic, AnyURI, AbstractQName, AbstractBinary
+from elementpath.datatypes import UntypedAtomic, AnyURI, AbstractQName, AbstractBinary, \
+    AbstractDateTime
 from elementpath.collations import UNICODE_CODEPOINT_COLLATION, CollationManager
 from elementpath.xpath_nodes import XPathNode, EtreeElementNode, TextAttributeNode, \
     NamespaceNode, TextNode, CommentNode, ProcessingInstructionNode, EtreeDocumentNode
@@ -399,6 +400,9 @@ def same_key(k1: Any, k2: Any) -> bool:
     elif isinstance(k1, AbstractBinary) and isinstance(k2, AbstractBinary) \
             and type(k1) is not type(k2):
         return False  # xs:hexBinary and xs:base64Binary values are never deep-equal
+    elif isinstance(k1, AbstractDateTime) and isinstance(k2, AbstractDateTime) \
+            and not isinstance(k1, type(k2)) and not isinstance(k2, type(k1)):
+        return False  # e.g. an xs:date and an xs:dateTime or an xs:gYear are never deep-equal
 
     try:
         return True if k1 == k2 else False
